@@ -268,6 +268,29 @@ RenderAttr0(a, env, isSlotEl) ==
       [] a.f = "extra-attr:" -> <<[ch |-> "a", n |-> a.n, v |-> RenderValue(a.v, env, VS(""))]>>
       [] OTHER -> <<>>          \* slot, slot:x handled elsewhere
 
+(* dev mode: the generated code announces, per element and per <slot>, the names of the attributes the template writes
+   on it - id / slot / class / style (/ name) as `:id` .., then properties (two-way bound ones under their camelCase
+   name), change listeners, `data:` and `mark:` entries - in this order of kinds, source order within a kind *)
+RECURSIVE NamesOfKind(_, _, _, _)
+NamesOfKind(at, i, fams, isSlotEl) ==
+    IF i > Len(at) THEN <<>>
+    ELSE LET a == at[i]
+             nm == CASE a.f = "plain"   -> IF isSlotEl THEN Camel(a.n) ELSE a.n
+                     [] a.f = "model:"  -> Camel(a.n)
+                     [] a.f = "change:" -> Camel(a.n)
+                     [] a.f = "data:"   -> "data:" \o a.n
+                     [] a.f = "data-"   -> "data:" \o Camel(a.n)
+                     [] a.f = "mark:"   -> "mark:" \o a.n
+                     [] OTHER           -> ":" \o a.f
+         IN (IF a.f \in fams THEN <<nm>> ELSE <<>>) \o NamesOfKind(at, i + 1, fams, isSlotEl)
+DevNames(at, isSlotEl, named) ==
+    NamesOfKind(at, 1, {"id"}, isSlotEl) \o NamesOfKind(at, 1, {"slot"}, isSlotEl)
+    \o (IF isSlotEl THEN (IF named THEN <<":name">> ELSE <<>>)
+        ELSE NamesOfKind(at, 1, {"class"}, isSlotEl) \o NamesOfKind(at, 1, {"style"}, isSlotEl))
+    \o NamesOfKind(at, 1, IF isSlotEl THEN {"plain"} ELSE {"plain", "model:"}, isSlotEl)
+    \o (IF isSlotEl THEN <<>> ELSE NamesOfKind(at, 1, {"change:"}, isSlotEl))
+    \o NamesOfKind(at, 1, {"data:", "data-"}, isSlotEl) \o NamesOfKind(at, 1, {"mark:"}, isSlotEl)
+
 RenderAttr(a, env, isSlotEl) == WithLP(RenderAttr0(a, env, isSlotEl), a, env)
 
 RenderAttrs(at, i, env, isSlotEl, acc) ==
@@ -375,7 +398,7 @@ RenderNode(n, env, g) ==
                 sv2 == IF IsDyn(n.tag) THEN SlotValuesOf(at, 1, <<>>) ELSE VO(<<>>)
                 sl == SlotOf(n.at, env2)
             IN IF env.sm /\ ~SlotMatches(sl) THEN <<>>
-               ELSE << [t |-> "elem", tag |-> n.tag, at |-> at,
+               ELSE << [t |-> "elem", tag |-> n.tag, at |-> at, dev |-> DevNames(n.at, FALSE, FALSE),
                         slot |-> IF env.sm THEN [t |-> "absent"] ELSE sl,
                         ch |-> RenderSeq(n.ch, [env2 EXCEPT !.sv = sv2, !.sm = IsDyn(n.tag)], g)] >>
       [] n.t = "if" ->
@@ -412,6 +435,8 @@ RenderNode(n, env, g) ==
             \* (a <slot> that receives slot values itself - a forwarding slot - sees them in its own attributes, like any element)
             LET env2 == [env EXCEPT !.scopes = @ \o SlotScopes(n.at, 1, env.sv, <<>>)] IN
             << [t |-> "slot", name |-> RenderValue(n.name, env2, VS("")), at |-> RenderAttrs(n.at, 1, env2, TRUE, <<>>),
+                \* (a <slot> that carries nothing but its name announces nothing)
+                dev |-> IF Len(n.at) = 0 THEN <<>> ELSE DevNames(n.at, TRUE, n.name.t # "none"),
                 slot |-> IF env.sm THEN [t |-> "absent"] ELSE SlotOf(n.at, env2)] >>
 
 RenderSeq(ns, env, g) ==
